@@ -4,7 +4,9 @@
 // interface value), so that "the caller" of the library function is p0.H /
 // p0.(*T).G, the caller above that is p1's, and so on up to p3.
 //
-// The two switch bodies are identical on purpose.
+// shape selects the argument shape, one per argument-dependent branch of the
+// library (see ShapeNames). The two switch bodies are identical on purpose
+// (the check compares what they accept).
 package p0
 
 import (
@@ -20,15 +22,43 @@ import (
 	"google.golang.org/grpc/codes"
 )
 
-// Cause and Cause2 carry no stack trace and no domain, so that the only
-// stack / domain in a constructed error is the one under test.
+// Cause, Cause2 and Other carry no stack trace and no domain, so that the
+// only stack / domain on the cause chain of a constructed error is the one
+// under test.
 var (
 	Cause  = goerrors.New("cause")
 	Cause2 = goerrors.New("cause2")
+	Other  = goerrors.New("other")
 )
 
-// Unknown is returned as domain for a name that has no case.
-const Unknown = "\x00unknown case"
+// OtherStack is an error-valued format argument that has a stack of its own
+// (captured in this package's init): it ends up as a secondary error and its
+// stack must never be taken for the constructor's.
+var OtherStack = errors.New("other with stack")
+
+// Formats live in variables so that vet's printf check leaves %w alone.
+var (
+	FmtV = "x %v"
+	FmtW = "x: %w"
+)
+
+// ShapeNames names the argument shapes.
+var ShapeNames = []string{
+	0: "plain",          // "x" / "x %d", 1 / two errors
+	1: "empty",          // empty message, or empty format without arguments
+	2: "error-arg",      // format with an error-valued argument (secondary error)
+	3: "percent-w",      // format with %w
+	4: "join-one",       // Join of a single error
+	5: "join-nil-among", // Join of two errors with a nil between them
+	6: "empty-fmt-args", // empty format with arguments
+}
+
+// Unknown is returned as domain for a name that has no case, NoShape for a
+// (function, shape) combination that does not exist.
+const (
+	Unknown = "\x00unknown case"
+	NoShape = "\x00no such shape"
+)
 
 // Where reports the directory and base name of this package's source file
 // exactly as the runtime sees them.
@@ -40,111 +70,424 @@ func Where() (dir, file string) {
 // T carries call path 2.
 type T struct{}
 
-// H calls the library function called name with the given depth (call
-// path 1). It returns either a domain or an error.
+// H calls the library function called name with argument shape shape and
+// the given depth (call path 1). It returns either a domain or an error.
 //
 //go:noinline
-func H(name string, depth int) (dom string, err error) {
+func H(name string, shape, depth int) (dom string, err error) {
 	switch name {
-	// root package
 	case "errors.New":
-		return "", errors.New("x")
+		switch shape {
+		case 0:
+			return "", errors.New("x")
+		case 1:
+			return "", errors.New("")
+		}
+		return NoShape, nil
 	case "errors.NewWithDepth":
-		return "", errors.NewWithDepth(depth, "x")
+		switch shape {
+		case 0:
+			return "", errors.NewWithDepth(depth, "x")
+		case 1:
+			return "", errors.NewWithDepth(depth, "")
+		}
+		return NoShape, nil
 	case "errors.Newf":
-		return "", errors.Newf("x %d", 1)
+		switch shape {
+		case 0:
+			return "", errors.Newf("x %d", 1)
+		case 1:
+			return "", errors.Newf("")
+		case 2:
+			return "", errors.Newf(FmtV, OtherStack)
+		case 3:
+			return "", errors.Newf(FmtW, Other)
+		}
+		return NoShape, nil
 	case "errors.NewWithDepthf":
-		return "", errors.NewWithDepthf(depth, "x %d", 1)
+		switch shape {
+		case 0:
+			return "", errors.NewWithDepthf(depth, "x %d", 1)
+		case 1:
+			return "", errors.NewWithDepthf(depth, "")
+		case 2:
+			return "", errors.NewWithDepthf(depth, FmtV, OtherStack)
+		case 3:
+			return "", errors.NewWithDepthf(depth, FmtW, Other)
+		}
+		return NoShape, nil
 	case "errors.Errorf":
-		return "", errors.Errorf("x %d", 1)
+		switch shape {
+		case 0:
+			return "", errors.Errorf("x %d", 1)
+		case 1:
+			return "", errors.Errorf("")
+		case 2:
+			return "", errors.Errorf(FmtV, OtherStack)
+		case 3:
+			return "", errors.Errorf(FmtW, Other)
+		}
+		return NoShape, nil
 	case "errors.Wrap":
-		return "", errors.Wrap(Cause, "x")
+		switch shape {
+		case 0:
+			return "", errors.Wrap(Cause, "x")
+		case 1:
+			return "", errors.Wrap(Cause, "")
+		}
+		return NoShape, nil
 	case "errors.WrapWithDepth":
-		return "", errors.WrapWithDepth(depth, Cause, "x")
+		switch shape {
+		case 0:
+			return "", errors.WrapWithDepth(depth, Cause, "x")
+		case 1:
+			return "", errors.WrapWithDepth(depth, Cause, "")
+		}
+		return NoShape, nil
 	case "errors.Wrapf":
-		return "", errors.Wrapf(Cause, "x %d", 1)
+		switch shape {
+		case 0:
+			return "", errors.Wrapf(Cause, "x %d", 1)
+		case 1:
+			return "", errors.Wrapf(Cause, "")
+		case 2:
+			return "", errors.Wrapf(Cause, FmtV, OtherStack)
+		case 6:
+			return "", errors.Wrapf(Cause, "", 1)
+		}
+		return NoShape, nil
 	case "errors.WrapWithDepthf":
-		return "", errors.WrapWithDepthf(depth, Cause, "x %d", 1)
+		switch shape {
+		case 0:
+			return "", errors.WrapWithDepthf(depth, Cause, "x %d", 1)
+		case 1:
+			return "", errors.WrapWithDepthf(depth, Cause, "")
+		case 2:
+			return "", errors.WrapWithDepthf(depth, Cause, FmtV, OtherStack)
+		case 6:
+			return "", errors.WrapWithDepthf(depth, Cause, "", 1)
+		}
+		return NoShape, nil
 	case "errors.WithStack":
-		return "", errors.WithStack(Cause)
+		switch shape {
+		case 0:
+			return "", errors.WithStack(Cause)
+		}
+		return NoShape, nil
 	case "errors.WithStackDepth":
-		return "", errors.WithStackDepth(Cause, depth)
+		switch shape {
+		case 0:
+			return "", errors.WithStackDepth(Cause, depth)
+		}
+		return NoShape, nil
 	case "errors.AssertionFailedf":
-		return "", errors.AssertionFailedf("x %d", 1)
+		switch shape {
+		case 0:
+			return "", errors.AssertionFailedf("x %d", 1)
+		case 1:
+			return "", errors.AssertionFailedf("")
+		case 2:
+			return "", errors.AssertionFailedf(FmtV, OtherStack)
+		case 3:
+			return "", errors.AssertionFailedf(FmtW, Other)
+		}
+		return NoShape, nil
 	case "errors.AssertionFailedWithDepthf":
-		return "", errors.AssertionFailedWithDepthf(depth, "x %d", 1)
+		switch shape {
+		case 0:
+			return "", errors.AssertionFailedWithDepthf(depth, "x %d", 1)
+		case 1:
+			return "", errors.AssertionFailedWithDepthf(depth, "")
+		case 2:
+			return "", errors.AssertionFailedWithDepthf(depth, FmtV, OtherStack)
+		case 3:
+			return "", errors.AssertionFailedWithDepthf(depth, FmtW, Other)
+		}
+		return NoShape, nil
 	case "errors.NewAssertionErrorWithWrappedErrf":
-		return "", errors.NewAssertionErrorWithWrappedErrf(Cause, "x %d", 1)
+		switch shape {
+		case 0:
+			return "", errors.NewAssertionErrorWithWrappedErrf(Cause, "x %d", 1)
+		case 1:
+			return "", errors.NewAssertionErrorWithWrappedErrf(Cause, "")
+		case 2:
+			return "", errors.NewAssertionErrorWithWrappedErrf(Cause, FmtV, OtherStack)
+		case 6:
+			return "", errors.NewAssertionErrorWithWrappedErrf(Cause, "", 1)
+		}
+		return NoShape, nil
 	case "errors.HandleAsAssertionFailure":
-		return "", errors.HandleAsAssertionFailure(Cause)
+		switch shape {
+		case 0:
+			return "", errors.HandleAsAssertionFailure(Cause)
+		}
+		return NoShape, nil
 	case "errors.HandleAsAssertionFailureDepth":
-		return "", errors.HandleAsAssertionFailureDepth(depth, Cause)
+		switch shape {
+		case 0:
+			return "", errors.HandleAsAssertionFailureDepth(depth, Cause)
+		}
+		return NoShape, nil
 	case "errors.Join":
-		return "", errors.Join(Cause, Cause2)
+		switch shape {
+		case 0:
+			return "", errors.Join(Cause, Cause2)
+		case 4:
+			return "", errors.Join(Cause)
+		case 5:
+			return "", errors.Join(Cause, nil, Cause2)
+		}
+		return NoShape, nil
 	case "errors.JoinWithDepth":
-		return "", errors.JoinWithDepth(depth, Cause, Cause2)
+		switch shape {
+		case 0:
+			return "", errors.JoinWithDepth(depth, Cause, Cause2)
+		case 4:
+			return "", errors.JoinWithDepth(depth, Cause)
+		case 5:
+			return "", errors.JoinWithDepth(depth, Cause, nil, Cause2)
+		}
+		return NoShape, nil
 	case "errors.PackageDomain":
-		return string(errors.PackageDomain()), nil
+		switch shape {
+		case 0:
+			return string(errors.PackageDomain()), nil
+		}
+		return NoShape, nil
 	case "errors.PackageDomainAtDepth":
-		return string(errors.PackageDomainAtDepth(depth)), nil
-
-	// errutil
+		switch shape {
+		case 0:
+			return string(errors.PackageDomainAtDepth(depth)), nil
+		}
+		return NoShape, nil
 	case "errutil.New":
-		return "", errutil.New("x")
+		switch shape {
+		case 0:
+			return "", errutil.New("x")
+		case 1:
+			return "", errutil.New("")
+		}
+		return NoShape, nil
 	case "errutil.NewWithDepth":
-		return "", errutil.NewWithDepth(depth, "x")
+		switch shape {
+		case 0:
+			return "", errutil.NewWithDepth(depth, "x")
+		case 1:
+			return "", errutil.NewWithDepth(depth, "")
+		}
+		return NoShape, nil
 	case "errutil.Newf":
-		return "", errutil.Newf("x %d", 1)
+		switch shape {
+		case 0:
+			return "", errutil.Newf("x %d", 1)
+		case 1:
+			return "", errutil.Newf("")
+		case 2:
+			return "", errutil.Newf(FmtV, OtherStack)
+		case 3:
+			return "", errutil.Newf(FmtW, Other)
+		}
+		return NoShape, nil
 	case "errutil.NewWithDepthf":
-		return "", errutil.NewWithDepthf(depth, "x %d", 1)
+		switch shape {
+		case 0:
+			return "", errutil.NewWithDepthf(depth, "x %d", 1)
+		case 1:
+			return "", errutil.NewWithDepthf(depth, "")
+		case 2:
+			return "", errutil.NewWithDepthf(depth, FmtV, OtherStack)
+		case 3:
+			return "", errutil.NewWithDepthf(depth, FmtW, Other)
+		}
+		return NoShape, nil
 	case "errutil.Wrap":
-		return "", errutil.Wrap(Cause, "x")
+		switch shape {
+		case 0:
+			return "", errutil.Wrap(Cause, "x")
+		case 1:
+			return "", errutil.Wrap(Cause, "")
+		}
+		return NoShape, nil
 	case "errutil.WrapWithDepth":
-		return "", errutil.WrapWithDepth(depth, Cause, "x")
+		switch shape {
+		case 0:
+			return "", errutil.WrapWithDepth(depth, Cause, "x")
+		case 1:
+			return "", errutil.WrapWithDepth(depth, Cause, "")
+		}
+		return NoShape, nil
 	case "errutil.Wrapf":
-		return "", errutil.Wrapf(Cause, "x %d", 1)
+		switch shape {
+		case 0:
+			return "", errutil.Wrapf(Cause, "x %d", 1)
+		case 1:
+			return "", errutil.Wrapf(Cause, "")
+		case 2:
+			return "", errutil.Wrapf(Cause, FmtV, OtherStack)
+		case 6:
+			return "", errutil.Wrapf(Cause, "", 1)
+		}
+		return NoShape, nil
 	case "errutil.WrapWithDepthf":
-		return "", errutil.WrapWithDepthf(depth, Cause, "x %d", 1)
+		switch shape {
+		case 0:
+			return "", errutil.WrapWithDepthf(depth, Cause, "x %d", 1)
+		case 1:
+			return "", errutil.WrapWithDepthf(depth, Cause, "")
+		case 2:
+			return "", errutil.WrapWithDepthf(depth, Cause, FmtV, OtherStack)
+		case 6:
+			return "", errutil.WrapWithDepthf(depth, Cause, "", 1)
+		}
+		return NoShape, nil
 	case "errutil.AssertionFailedf":
-		return "", errutil.AssertionFailedf("x %d", 1)
+		switch shape {
+		case 0:
+			return "", errutil.AssertionFailedf("x %d", 1)
+		case 1:
+			return "", errutil.AssertionFailedf("")
+		case 2:
+			return "", errutil.AssertionFailedf(FmtV, OtherStack)
+		case 3:
+			return "", errutil.AssertionFailedf(FmtW, Other)
+		}
+		return NoShape, nil
 	case "errutil.AssertionFailedWithDepthf":
-		return "", errutil.AssertionFailedWithDepthf(depth, "x %d", 1)
-	case "errutil.HandleAsAssertionFailure":
-		return "", errutil.HandleAsAssertionFailure(Cause)
-	case "errutil.HandleAsAssertionFailureDepth":
-		return "", errutil.HandleAsAssertionFailureDepth(depth, Cause)
+		switch shape {
+		case 0:
+			return "", errutil.AssertionFailedWithDepthf(depth, "x %d", 1)
+		case 1:
+			return "", errutil.AssertionFailedWithDepthf(depth, "")
+		case 2:
+			return "", errutil.AssertionFailedWithDepthf(depth, FmtV, OtherStack)
+		case 3:
+			return "", errutil.AssertionFailedWithDepthf(depth, FmtW, Other)
+		}
+		return NoShape, nil
 	case "errutil.NewAssertionErrorWithWrappedErrf":
-		return "", errutil.NewAssertionErrorWithWrappedErrf(Cause, "x %d", 1)
+		switch shape {
+		case 0:
+			return "", errutil.NewAssertionErrorWithWrappedErrf(Cause, "x %d", 1)
+		case 1:
+			return "", errutil.NewAssertionErrorWithWrappedErrf(Cause, "")
+		case 2:
+			return "", errutil.NewAssertionErrorWithWrappedErrf(Cause, FmtV, OtherStack)
+		case 6:
+			return "", errutil.NewAssertionErrorWithWrappedErrf(Cause, "", 1)
+		}
+		return NoShape, nil
 	case "errutil.NewAssertionErrorWithWrappedErrDepthf":
-		return "", errutil.NewAssertionErrorWithWrappedErrDepthf(depth, Cause, "x %d", 1)
+		switch shape {
+		case 0:
+			return "", errutil.NewAssertionErrorWithWrappedErrDepthf(depth, Cause, "x %d", 1)
+		case 1:
+			return "", errutil.NewAssertionErrorWithWrappedErrDepthf(depth, Cause, "")
+		case 2:
+			return "", errutil.NewAssertionErrorWithWrappedErrDepthf(depth, Cause, FmtV, OtherStack)
+		case 6:
+			return "", errutil.NewAssertionErrorWithWrappedErrDepthf(depth, Cause, "", 1)
+		}
+		return NoShape, nil
+	case "errutil.HandleAsAssertionFailure":
+		switch shape {
+		case 0:
+			return "", errutil.HandleAsAssertionFailure(Cause)
+		}
+		return NoShape, nil
+	case "errutil.HandleAsAssertionFailureDepth":
+		switch shape {
+		case 0:
+			return "", errutil.HandleAsAssertionFailureDepth(depth, Cause)
+		}
+		return NoShape, nil
 	case "errutil.JoinWithDepth":
-		return "", errutil.JoinWithDepth(depth, Cause, Cause2)
-
-	// withstack
+		switch shape {
+		case 0:
+			return "", errutil.JoinWithDepth(depth, Cause, Cause2)
+		case 4:
+			return "", errutil.JoinWithDepth(depth, Cause)
+		case 5:
+			return "", errutil.JoinWithDepth(depth, Cause, nil, Cause2)
+		}
+		return NoShape, nil
 	case "withstack.WithStack":
-		return "", withstack.WithStack(Cause)
+		switch shape {
+		case 0:
+			return "", withstack.WithStack(Cause)
+		}
+		return NoShape, nil
 	case "withstack.WithStackDepth":
-		return "", withstack.WithStackDepth(Cause, depth)
-
-	// domains
+		switch shape {
+		case 0:
+			return "", withstack.WithStackDepth(Cause, depth)
+		}
+		return NoShape, nil
 	case "domains.New":
-		return "", domains.New("x")
+		switch shape {
+		case 0:
+			return "", domains.New("x")
+		case 1:
+			return "", domains.New("")
+		}
+		return NoShape, nil
 	case "domains.Handled":
-		return "", domains.Handled(Cause)
+		switch shape {
+		case 0:
+			return "", domains.Handled(Cause)
+		}
+		return NoShape, nil
 	case "domains.PackageDomain":
-		return string(domains.PackageDomain()), nil
+		switch shape {
+		case 0:
+			return string(domains.PackageDomain()), nil
+		}
+		return NoShape, nil
 	case "domains.PackageDomainAtDepth":
-		return string(domains.PackageDomainAtDepth(depth)), nil
-
-	// grpc/status
+		switch shape {
+		case 0:
+			return string(domains.PackageDomainAtDepth(depth)), nil
+		}
+		return NoShape, nil
 	case "status.Error":
-		return "", status.Error(codes.NotFound, "x")
+		switch shape {
+		case 0:
+			return "", status.Error(codes.NotFound, "x")
+		case 1:
+			return "", status.Error(codes.NotFound, "")
+		}
+		return NoShape, nil
 	case "status.Errorf":
-		return "", status.Errorf(codes.NotFound, "x %d", 1)
+		switch shape {
+		case 0:
+			return "", status.Errorf(codes.NotFound, "x %d", 1)
+		case 1:
+			return "", status.Errorf(codes.NotFound, "")
+		case 2:
+			return "", status.Errorf(codes.NotFound, FmtV, OtherStack)
+		case 3:
+			return "", status.Errorf(codes.NotFound, FmtW, Other)
+		}
+		return NoShape, nil
 	case "status.WrapErr":
-		return "", status.WrapErr(codes.NotFound, "x", Cause)
+		switch shape {
+		case 0:
+			return "", status.WrapErr(codes.NotFound, "x", Cause)
+		case 1:
+			return "", status.WrapErr(codes.NotFound, "", Cause)
+		}
+		return NoShape, nil
 	case "status.WrapErrf":
-		return "", status.WrapErrf(codes.NotFound, Cause, "x %d", 1)
+		switch shape {
+		case 0:
+			return "", status.WrapErrf(codes.NotFound, Cause, "x %d", 1)
+		case 1:
+			return "", status.WrapErrf(codes.NotFound, Cause, "")
+		case 2:
+			return "", status.WrapErrf(codes.NotFound, Cause, FmtV, OtherStack)
+		case 6:
+			return "", status.WrapErrf(codes.NotFound, Cause, "", 1)
+		}
+		return NoShape, nil
 	}
 	return Unknown, nil
 }
@@ -152,107 +495,420 @@ func H(name string, depth int) (dom string, err error) {
 // G is H for call path 2.
 //
 //go:noinline
-func (t *T) G(name string, depth int) (dom string, err error) {
+func (t *T) G(name string, shape, depth int) (dom string, err error) {
 	switch name {
-	// root package
 	case "errors.New":
-		return "", errors.New("x")
+		switch shape {
+		case 0:
+			return "", errors.New("x")
+		case 1:
+			return "", errors.New("")
+		}
+		return NoShape, nil
 	case "errors.NewWithDepth":
-		return "", errors.NewWithDepth(depth, "x")
+		switch shape {
+		case 0:
+			return "", errors.NewWithDepth(depth, "x")
+		case 1:
+			return "", errors.NewWithDepth(depth, "")
+		}
+		return NoShape, nil
 	case "errors.Newf":
-		return "", errors.Newf("x %d", 1)
+		switch shape {
+		case 0:
+			return "", errors.Newf("x %d", 1)
+		case 1:
+			return "", errors.Newf("")
+		case 2:
+			return "", errors.Newf(FmtV, OtherStack)
+		case 3:
+			return "", errors.Newf(FmtW, Other)
+		}
+		return NoShape, nil
 	case "errors.NewWithDepthf":
-		return "", errors.NewWithDepthf(depth, "x %d", 1)
+		switch shape {
+		case 0:
+			return "", errors.NewWithDepthf(depth, "x %d", 1)
+		case 1:
+			return "", errors.NewWithDepthf(depth, "")
+		case 2:
+			return "", errors.NewWithDepthf(depth, FmtV, OtherStack)
+		case 3:
+			return "", errors.NewWithDepthf(depth, FmtW, Other)
+		}
+		return NoShape, nil
 	case "errors.Errorf":
-		return "", errors.Errorf("x %d", 1)
+		switch shape {
+		case 0:
+			return "", errors.Errorf("x %d", 1)
+		case 1:
+			return "", errors.Errorf("")
+		case 2:
+			return "", errors.Errorf(FmtV, OtherStack)
+		case 3:
+			return "", errors.Errorf(FmtW, Other)
+		}
+		return NoShape, nil
 	case "errors.Wrap":
-		return "", errors.Wrap(Cause, "x")
+		switch shape {
+		case 0:
+			return "", errors.Wrap(Cause, "x")
+		case 1:
+			return "", errors.Wrap(Cause, "")
+		}
+		return NoShape, nil
 	case "errors.WrapWithDepth":
-		return "", errors.WrapWithDepth(depth, Cause, "x")
+		switch shape {
+		case 0:
+			return "", errors.WrapWithDepth(depth, Cause, "x")
+		case 1:
+			return "", errors.WrapWithDepth(depth, Cause, "")
+		}
+		return NoShape, nil
 	case "errors.Wrapf":
-		return "", errors.Wrapf(Cause, "x %d", 1)
+		switch shape {
+		case 0:
+			return "", errors.Wrapf(Cause, "x %d", 1)
+		case 1:
+			return "", errors.Wrapf(Cause, "")
+		case 2:
+			return "", errors.Wrapf(Cause, FmtV, OtherStack)
+		case 6:
+			return "", errors.Wrapf(Cause, "", 1)
+		}
+		return NoShape, nil
 	case "errors.WrapWithDepthf":
-		return "", errors.WrapWithDepthf(depth, Cause, "x %d", 1)
+		switch shape {
+		case 0:
+			return "", errors.WrapWithDepthf(depth, Cause, "x %d", 1)
+		case 1:
+			return "", errors.WrapWithDepthf(depth, Cause, "")
+		case 2:
+			return "", errors.WrapWithDepthf(depth, Cause, FmtV, OtherStack)
+		case 6:
+			return "", errors.WrapWithDepthf(depth, Cause, "", 1)
+		}
+		return NoShape, nil
 	case "errors.WithStack":
-		return "", errors.WithStack(Cause)
+		switch shape {
+		case 0:
+			return "", errors.WithStack(Cause)
+		}
+		return NoShape, nil
 	case "errors.WithStackDepth":
-		return "", errors.WithStackDepth(Cause, depth)
+		switch shape {
+		case 0:
+			return "", errors.WithStackDepth(Cause, depth)
+		}
+		return NoShape, nil
 	case "errors.AssertionFailedf":
-		return "", errors.AssertionFailedf("x %d", 1)
+		switch shape {
+		case 0:
+			return "", errors.AssertionFailedf("x %d", 1)
+		case 1:
+			return "", errors.AssertionFailedf("")
+		case 2:
+			return "", errors.AssertionFailedf(FmtV, OtherStack)
+		case 3:
+			return "", errors.AssertionFailedf(FmtW, Other)
+		}
+		return NoShape, nil
 	case "errors.AssertionFailedWithDepthf":
-		return "", errors.AssertionFailedWithDepthf(depth, "x %d", 1)
+		switch shape {
+		case 0:
+			return "", errors.AssertionFailedWithDepthf(depth, "x %d", 1)
+		case 1:
+			return "", errors.AssertionFailedWithDepthf(depth, "")
+		case 2:
+			return "", errors.AssertionFailedWithDepthf(depth, FmtV, OtherStack)
+		case 3:
+			return "", errors.AssertionFailedWithDepthf(depth, FmtW, Other)
+		}
+		return NoShape, nil
 	case "errors.NewAssertionErrorWithWrappedErrf":
-		return "", errors.NewAssertionErrorWithWrappedErrf(Cause, "x %d", 1)
+		switch shape {
+		case 0:
+			return "", errors.NewAssertionErrorWithWrappedErrf(Cause, "x %d", 1)
+		case 1:
+			return "", errors.NewAssertionErrorWithWrappedErrf(Cause, "")
+		case 2:
+			return "", errors.NewAssertionErrorWithWrappedErrf(Cause, FmtV, OtherStack)
+		case 6:
+			return "", errors.NewAssertionErrorWithWrappedErrf(Cause, "", 1)
+		}
+		return NoShape, nil
 	case "errors.HandleAsAssertionFailure":
-		return "", errors.HandleAsAssertionFailure(Cause)
+		switch shape {
+		case 0:
+			return "", errors.HandleAsAssertionFailure(Cause)
+		}
+		return NoShape, nil
 	case "errors.HandleAsAssertionFailureDepth":
-		return "", errors.HandleAsAssertionFailureDepth(depth, Cause)
+		switch shape {
+		case 0:
+			return "", errors.HandleAsAssertionFailureDepth(depth, Cause)
+		}
+		return NoShape, nil
 	case "errors.Join":
-		return "", errors.Join(Cause, Cause2)
+		switch shape {
+		case 0:
+			return "", errors.Join(Cause, Cause2)
+		case 4:
+			return "", errors.Join(Cause)
+		case 5:
+			return "", errors.Join(Cause, nil, Cause2)
+		}
+		return NoShape, nil
 	case "errors.JoinWithDepth":
-		return "", errors.JoinWithDepth(depth, Cause, Cause2)
+		switch shape {
+		case 0:
+			return "", errors.JoinWithDepth(depth, Cause, Cause2)
+		case 4:
+			return "", errors.JoinWithDepth(depth, Cause)
+		case 5:
+			return "", errors.JoinWithDepth(depth, Cause, nil, Cause2)
+		}
+		return NoShape, nil
 	case "errors.PackageDomain":
-		return string(errors.PackageDomain()), nil
+		switch shape {
+		case 0:
+			return string(errors.PackageDomain()), nil
+		}
+		return NoShape, nil
 	case "errors.PackageDomainAtDepth":
-		return string(errors.PackageDomainAtDepth(depth)), nil
-
-	// errutil
+		switch shape {
+		case 0:
+			return string(errors.PackageDomainAtDepth(depth)), nil
+		}
+		return NoShape, nil
 	case "errutil.New":
-		return "", errutil.New("x")
+		switch shape {
+		case 0:
+			return "", errutil.New("x")
+		case 1:
+			return "", errutil.New("")
+		}
+		return NoShape, nil
 	case "errutil.NewWithDepth":
-		return "", errutil.NewWithDepth(depth, "x")
+		switch shape {
+		case 0:
+			return "", errutil.NewWithDepth(depth, "x")
+		case 1:
+			return "", errutil.NewWithDepth(depth, "")
+		}
+		return NoShape, nil
 	case "errutil.Newf":
-		return "", errutil.Newf("x %d", 1)
+		switch shape {
+		case 0:
+			return "", errutil.Newf("x %d", 1)
+		case 1:
+			return "", errutil.Newf("")
+		case 2:
+			return "", errutil.Newf(FmtV, OtherStack)
+		case 3:
+			return "", errutil.Newf(FmtW, Other)
+		}
+		return NoShape, nil
 	case "errutil.NewWithDepthf":
-		return "", errutil.NewWithDepthf(depth, "x %d", 1)
+		switch shape {
+		case 0:
+			return "", errutil.NewWithDepthf(depth, "x %d", 1)
+		case 1:
+			return "", errutil.NewWithDepthf(depth, "")
+		case 2:
+			return "", errutil.NewWithDepthf(depth, FmtV, OtherStack)
+		case 3:
+			return "", errutil.NewWithDepthf(depth, FmtW, Other)
+		}
+		return NoShape, nil
 	case "errutil.Wrap":
-		return "", errutil.Wrap(Cause, "x")
+		switch shape {
+		case 0:
+			return "", errutil.Wrap(Cause, "x")
+		case 1:
+			return "", errutil.Wrap(Cause, "")
+		}
+		return NoShape, nil
 	case "errutil.WrapWithDepth":
-		return "", errutil.WrapWithDepth(depth, Cause, "x")
+		switch shape {
+		case 0:
+			return "", errutil.WrapWithDepth(depth, Cause, "x")
+		case 1:
+			return "", errutil.WrapWithDepth(depth, Cause, "")
+		}
+		return NoShape, nil
 	case "errutil.Wrapf":
-		return "", errutil.Wrapf(Cause, "x %d", 1)
+		switch shape {
+		case 0:
+			return "", errutil.Wrapf(Cause, "x %d", 1)
+		case 1:
+			return "", errutil.Wrapf(Cause, "")
+		case 2:
+			return "", errutil.Wrapf(Cause, FmtV, OtherStack)
+		case 6:
+			return "", errutil.Wrapf(Cause, "", 1)
+		}
+		return NoShape, nil
 	case "errutil.WrapWithDepthf":
-		return "", errutil.WrapWithDepthf(depth, Cause, "x %d", 1)
+		switch shape {
+		case 0:
+			return "", errutil.WrapWithDepthf(depth, Cause, "x %d", 1)
+		case 1:
+			return "", errutil.WrapWithDepthf(depth, Cause, "")
+		case 2:
+			return "", errutil.WrapWithDepthf(depth, Cause, FmtV, OtherStack)
+		case 6:
+			return "", errutil.WrapWithDepthf(depth, Cause, "", 1)
+		}
+		return NoShape, nil
 	case "errutil.AssertionFailedf":
-		return "", errutil.AssertionFailedf("x %d", 1)
+		switch shape {
+		case 0:
+			return "", errutil.AssertionFailedf("x %d", 1)
+		case 1:
+			return "", errutil.AssertionFailedf("")
+		case 2:
+			return "", errutil.AssertionFailedf(FmtV, OtherStack)
+		case 3:
+			return "", errutil.AssertionFailedf(FmtW, Other)
+		}
+		return NoShape, nil
 	case "errutil.AssertionFailedWithDepthf":
-		return "", errutil.AssertionFailedWithDepthf(depth, "x %d", 1)
-	case "errutil.HandleAsAssertionFailure":
-		return "", errutil.HandleAsAssertionFailure(Cause)
-	case "errutil.HandleAsAssertionFailureDepth":
-		return "", errutil.HandleAsAssertionFailureDepth(depth, Cause)
+		switch shape {
+		case 0:
+			return "", errutil.AssertionFailedWithDepthf(depth, "x %d", 1)
+		case 1:
+			return "", errutil.AssertionFailedWithDepthf(depth, "")
+		case 2:
+			return "", errutil.AssertionFailedWithDepthf(depth, FmtV, OtherStack)
+		case 3:
+			return "", errutil.AssertionFailedWithDepthf(depth, FmtW, Other)
+		}
+		return NoShape, nil
 	case "errutil.NewAssertionErrorWithWrappedErrf":
-		return "", errutil.NewAssertionErrorWithWrappedErrf(Cause, "x %d", 1)
+		switch shape {
+		case 0:
+			return "", errutil.NewAssertionErrorWithWrappedErrf(Cause, "x %d", 1)
+		case 1:
+			return "", errutil.NewAssertionErrorWithWrappedErrf(Cause, "")
+		case 2:
+			return "", errutil.NewAssertionErrorWithWrappedErrf(Cause, FmtV, OtherStack)
+		case 6:
+			return "", errutil.NewAssertionErrorWithWrappedErrf(Cause, "", 1)
+		}
+		return NoShape, nil
 	case "errutil.NewAssertionErrorWithWrappedErrDepthf":
-		return "", errutil.NewAssertionErrorWithWrappedErrDepthf(depth, Cause, "x %d", 1)
+		switch shape {
+		case 0:
+			return "", errutil.NewAssertionErrorWithWrappedErrDepthf(depth, Cause, "x %d", 1)
+		case 1:
+			return "", errutil.NewAssertionErrorWithWrappedErrDepthf(depth, Cause, "")
+		case 2:
+			return "", errutil.NewAssertionErrorWithWrappedErrDepthf(depth, Cause, FmtV, OtherStack)
+		case 6:
+			return "", errutil.NewAssertionErrorWithWrappedErrDepthf(depth, Cause, "", 1)
+		}
+		return NoShape, nil
+	case "errutil.HandleAsAssertionFailure":
+		switch shape {
+		case 0:
+			return "", errutil.HandleAsAssertionFailure(Cause)
+		}
+		return NoShape, nil
+	case "errutil.HandleAsAssertionFailureDepth":
+		switch shape {
+		case 0:
+			return "", errutil.HandleAsAssertionFailureDepth(depth, Cause)
+		}
+		return NoShape, nil
 	case "errutil.JoinWithDepth":
-		return "", errutil.JoinWithDepth(depth, Cause, Cause2)
-
-	// withstack
+		switch shape {
+		case 0:
+			return "", errutil.JoinWithDepth(depth, Cause, Cause2)
+		case 4:
+			return "", errutil.JoinWithDepth(depth, Cause)
+		case 5:
+			return "", errutil.JoinWithDepth(depth, Cause, nil, Cause2)
+		}
+		return NoShape, nil
 	case "withstack.WithStack":
-		return "", withstack.WithStack(Cause)
+		switch shape {
+		case 0:
+			return "", withstack.WithStack(Cause)
+		}
+		return NoShape, nil
 	case "withstack.WithStackDepth":
-		return "", withstack.WithStackDepth(Cause, depth)
-
-	// domains
+		switch shape {
+		case 0:
+			return "", withstack.WithStackDepth(Cause, depth)
+		}
+		return NoShape, nil
 	case "domains.New":
-		return "", domains.New("x")
+		switch shape {
+		case 0:
+			return "", domains.New("x")
+		case 1:
+			return "", domains.New("")
+		}
+		return NoShape, nil
 	case "domains.Handled":
-		return "", domains.Handled(Cause)
+		switch shape {
+		case 0:
+			return "", domains.Handled(Cause)
+		}
+		return NoShape, nil
 	case "domains.PackageDomain":
-		return string(domains.PackageDomain()), nil
+		switch shape {
+		case 0:
+			return string(domains.PackageDomain()), nil
+		}
+		return NoShape, nil
 	case "domains.PackageDomainAtDepth":
-		return string(domains.PackageDomainAtDepth(depth)), nil
-
-	// grpc/status
+		switch shape {
+		case 0:
+			return string(domains.PackageDomainAtDepth(depth)), nil
+		}
+		return NoShape, nil
 	case "status.Error":
-		return "", status.Error(codes.NotFound, "x")
+		switch shape {
+		case 0:
+			return "", status.Error(codes.NotFound, "x")
+		case 1:
+			return "", status.Error(codes.NotFound, "")
+		}
+		return NoShape, nil
 	case "status.Errorf":
-		return "", status.Errorf(codes.NotFound, "x %d", 1)
+		switch shape {
+		case 0:
+			return "", status.Errorf(codes.NotFound, "x %d", 1)
+		case 1:
+			return "", status.Errorf(codes.NotFound, "")
+		case 2:
+			return "", status.Errorf(codes.NotFound, FmtV, OtherStack)
+		case 3:
+			return "", status.Errorf(codes.NotFound, FmtW, Other)
+		}
+		return NoShape, nil
 	case "status.WrapErr":
-		return "", status.WrapErr(codes.NotFound, "x", Cause)
+		switch shape {
+		case 0:
+			return "", status.WrapErr(codes.NotFound, "x", Cause)
+		case 1:
+			return "", status.WrapErr(codes.NotFound, "", Cause)
+		}
+		return NoShape, nil
 	case "status.WrapErrf":
-		return "", status.WrapErrf(codes.NotFound, Cause, "x %d", 1)
+		switch shape {
+		case 0:
+			return "", status.WrapErrf(codes.NotFound, Cause, "x %d", 1)
+		case 1:
+			return "", status.WrapErrf(codes.NotFound, Cause, "")
+		case 2:
+			return "", status.WrapErrf(codes.NotFound, Cause, FmtV, OtherStack)
+		case 6:
+			return "", status.WrapErrf(codes.NotFound, Cause, "", 1)
+		}
+		return NoShape, nil
 	}
 	return Unknown, nil
 }
